@@ -570,6 +570,43 @@ func C18(c *core.Ctx) {
 	c.Count("bare_receives", nbare)
 	c.Floor("B3/selects", nsel, 20)
 	c.Floor("B3/bare-receives", nbare, 3)
+	// a panic is how several invalid inputs are refused (exit status 2): a recover() that does not end the process with a
+	// non-zero status, or panic again, turns such a refusal into a success
+	{
+		var bad []string
+		var rpos token.Pos
+		for _, f := range p.funcs {
+			allInstrs(f, func(fn *ssa.Function, ins ssa.Instruction) {
+				call, ok := ins.(ssa.CallInstruction)
+				if !ok {
+					return
+				}
+				if b, isB := call.Common().Value.(*ssa.Builtin); !isB || b.Name() != "recover" {
+					return
+				}
+				ends := false
+				for _, blk := range fn.Blocks {
+					for _, in2 := range blk.Instrs {
+						switch y := in2.(type) {
+						case *ssa.Panic:
+							ends = true
+						case ssa.CallInstruction:
+							if cal := y.Common().StaticCallee(); cal != nil && cal.String() == "os.Exit" {
+								if k, isC := y.Common().Args[0].(*ssa.Const); isC && k.Value != nil && k.Value.ExactString() != "0" {
+									ends = true
+								}
+							}
+						}
+					}
+				}
+				if !ends {
+					bad = append(bad, fmt.Sprintf("%s: %s recovers from a panic without exiting non-zero or panicking again", c.PosStr(ins.Pos()), fnKey(fn)))
+					rpos = ins.Pos()
+				}
+			})
+		}
+		c.Ob("B2/no-swallowed-panic", len(bad) == 0, rpos, "%s", first(bad, 3))
+	}
 	n := droppedInternalErrors(c, p, "B2/call")
 	c.Count("internal_error_call_sites", n)
 	c.Floor("B2/call", n, 28)
